@@ -5,4 +5,7 @@ TStr2 == TStr(2)
 TStr1 == TStr(1)
 TPalette == {<<cPLAIN>>, <<cLT, cAMP, cQUOT>>, <<cAPOS, cGT>>}
 OnlyIntended == {{}}
+Tags3 == {hDIV, hSPAN, hA}
+Tags2 == {hDIV, hSPAN}
+TOne == {<<cLT, cAMP, cQUOT>>}
 ====
